@@ -49,6 +49,10 @@ def split_top(f):
         x = st.pop()
         if z3.is_and(x):
             st.extend(x.children())
+        elif z3.is_implies(x) and z3.is_and(x.arg(1)):
+            # g -> (a and b)  ==  (g -> a) and (g -> b): exposes guarded quantifiers
+            for c in x.arg(1).children():
+                st.append(z3.Implies(x.arg(0), c))
         else:
             out.append(x)
     return out
@@ -112,10 +116,17 @@ def var_positions(body, nvars):
     return pos
 
 
-def instantiate(quants, ground, cap=24, extra_terms=()):
-    """instances of forall-hypotheses at ground index terms"""
+def instantiate(quants, ground, cap=8, goal_forms=(), done=None):
+    """instances of forall-hypotheses at ground index terms (trigger-guided; terms that
+    occur in the goal first; at most ``cap`` candidates per bound variable)"""
     occ = ground_index_terms(ground)
+    gocc = ground_index_terms(goal_forms)
+    gids = set()
+    for v in gocc.values():
+        for t in v:
+            gids.add(t.get_id())
     out = []
+    done = done if done is not None else set()
     for q in quants:
         n = q.num_vars()
         body = q.body()
@@ -123,32 +134,33 @@ def instantiate(quants, ground, cap=24, extra_terms=()):
         cands = []
         ok = True
         for vi in range(n):
-            # de-Bruijn index vi corresponds to bound variable n-1-vi
             terms = {}
             for p in pos[vi]:
                 key = (p[0], p[1])
                 off = p[2] if len(p) > 2 else 0
                 for t in occ.get(key, []):
-                    tt = z3.simplify(t - off) if off else t
-                    terms[tt.get_id()] = tt
-            for t in extra_terms:
-                terms[t.get_id()] = t
-            tl = list(terms.values())[:cap]
+                    tt = z3.simplify(t - off) if off else z3.simplify(t)
+                    terms[tt.get_id()] = (tt, 0 if t.get_id() in gids else 1)
+            tl = [t for t, _ in sorted(terms.values(), key=lambda x: x[1])][:cap]
             if not tl:
                 ok = False
                 break
             cands.append(tl)
         if not ok:
             continue
-        combos = list(itertools.islice(itertools.product(*cands), 200))
-        for combo in combos:
-            # substitute_vars takes terms for var 0, 1, ... (de-Bruijn order)
+        for combo in itertools.islice(itertools.product(*cands), 64):
+            key = (q.get_id(),) + tuple(c.get_id() for c in combo)
+            if key in done:
+                continue
+            done.add(key)
             inst = z3.substitute_vars(body, *combo)
+            if z3.is_implies(inst) and z3.is_false(z3.simplify(inst.arg(0))):
+                continue
             out.append(inst)
     return out
 
 
-def prepare(eng, ob, inst_rounds=2, level=0):
+def prepare(eng, ob, inst_rounds=3, level=0):
     hyps = list(ob.hyps) + list(eng.global_facts)
     neg = [] if ob.kind == "cover" else skolemize(z3.Not(ob.goal))
     forms = []
@@ -176,10 +188,17 @@ def prepare(eng, ob, inst_rounds=2, level=0):
     guarded = [f for f in allf if z3.is_implies(f) and z3.is_quantifier(f.arg(1)) and f.arg(1).is_forall()]
     ground = [f for f in allf if not has_quant(f)]
     inst_all = []
-    for _ in range(inst_rounds):
-        new = instantiate(quants, ground + inst_all)
-        for f in guarded:
-            for i in instantiate([f.arg(1)], ground + inst_all):
+    done_inst = set()
+    goal_forms = [g for f in negs for g in split_top(f)]
+    for rnd in range(inst_rounds):
+        quants_now = quants + [f for f in inst_all if z3.is_quantifier(f) and f.is_forall()]
+        guarded_now = guarded + [f for f in inst_all if z3.is_implies(f) and z3.is_quantifier(f.arg(1)) and f.arg(1).is_forall()]
+        # candidate terms: the original ground material (and the goal); instances only feed
+        # later rounds through the goal-ranked cap, which keeps offset chains from growing
+        src = ground + ([f for f in inst_all if not has_quant(f)] if rnd > 0 else [])
+        new = instantiate(quants_now, src, goal_forms=goal_forms, done=done_inst)
+        for f in guarded_now:
+            for i in instantiate([f.arg(1)], src, goal_forms=goal_forms, done=done_inst):
                 new.append(z3.Implies(f.arg(0), i))
         fresh = []
         for i in new:
@@ -198,7 +217,81 @@ def prepare(eng, ob, inst_rounds=2, level=0):
         inst_all.extend(fresh)
     full = allf + inst_all
     core = [f for f in full if not has_quant(f)]
+    gf = [g for f in negs for g in split_top(f)] if negs else []
+    ob._rels = []
+    prev = -1
+    for d in (1, 2, 4):
+        r = relevant(core, gf, depth=d)
+        if r is not None and len(r) != prev:
+            ob._rels.append((d, r))
+            prev = len(r)
     return full, core
+
+
+def symbols(f, cache={}):
+    """relevance atoms of a formula: uninterpreted constants and ground applications of
+    uninterpreted functions (identified by term id, so that A(i) and A(1) are different atoms)"""
+    k = f.get_id()
+    if k in cache:
+        return cache[k]
+    out = set()
+    st = [f]
+    seen = set()
+    while st:
+        x = st.pop()
+        if x.get_id() in seen:
+            continue
+        seen.add(x.get_id())
+        if z3.is_quantifier(x):
+            st.append(x.body())
+        elif z3.is_app(x):
+            if x.decl().kind() == z3.Z3_OP_UNINTERPRETED:
+                out.add(z3.simplify(x).get_id() if x.num_args() else x.get_id())
+            st.extend(x.children())
+    cache[k] = out
+    return out
+
+
+def relevant(core, goal_forms, depth=3, common_frac=0.3):
+    """SInE-style cone of influence: hypotheses reachable from the goal through shared
+    atoms within ``depth`` steps; atoms occurring in a large fraction of the
+    hypotheses do not propagate relevance.  Dropping hypotheses only weakens them."""
+    if not goal_forms or len(core) < 12:
+        return None
+    counts = {}
+    for f in core:
+        for s_ in symbols(f):
+            counts[s_] = counts.get(s_, 0) + 1
+    common = {s_ for s_, c in counts.items() if c > max(4, common_frac * len(core))}
+    gids = {g.get_id() for g in goal_forms}
+    R = set()
+    for g in goal_forms:
+        R |= symbols(g)
+    sel = {}
+    for g in goal_forms:
+        sel[g.get_id()] = g
+    rest = [f for f in core if f.get_id() not in gids]
+    for _ in range(depth):
+        add = []
+        for f in rest:
+            if f.get_id() in sel:
+                continue
+            sy = symbols(f)
+            key = sy - common
+            if (key and (key & (R - common))) or (not key and sy and sy <= R):
+                add.append(f)
+        if not add:
+            break
+        for f in add:
+            sel[f.get_id()] = f
+            R |= symbols(f)
+    # facts over common atoms only (parameter ranges such as N >= 8, fs > 0) are always kept
+    for f in rest:
+        if f.get_id() not in sel and symbols(f) and symbols(f) <= common and len(str(f)) < 200:
+            sel[f.get_id()] = f
+    if len(sel) >= len(core):
+        return None
+    return list(sel.values())
 
 
 def to_smt2(forms):
